@@ -27,6 +27,9 @@ type OState struct {
 	Link  map[string]olink  // guard variable (uniq name) -> what it decides
 	Facts map[string]bool   // a few boolean facts (X.hasParent(), X == nil)
 	Bad   map[string]string // key -> conflict recorded at a join / assignment
+	// Ret: what a helper analysed in place hands to its caller, per result position
+	// ("ref:<key>" / "file:<key>"); consumed by the assignment that receives the results
+	Ret map[int]string
 }
 
 type olink struct {
@@ -38,7 +41,7 @@ type olink struct {
 }
 
 func newOState() *OState {
-	return &OState{Bal: map[string]int{}, Def: map[string]int{}, Files: map[string]string{}, Link: map[string]olink{}, Facts: map[string]bool{}, Bad: map[string]string{}}
+	return &OState{Bal: map[string]int{}, Def: map[string]int{}, Files: map[string]string{}, Link: map[string]olink{}, Facts: map[string]bool{}, Bad: map[string]string{}, Ret: map[int]string{}}
 }
 
 func oCopy(s *OState) *OState {
@@ -57,6 +60,9 @@ func oCopy(s *OState) *OState {
 	}
 	for k, v := range s.Facts {
 		o.Facts[k] = v
+	}
+	for k, v := range s.Ret {
+		o.Ret[k] = v
 	}
 	for k, v := range s.Bad {
 		o.Bad[k] = v
@@ -169,6 +175,16 @@ func oJoin(a, b *OState) *OState {
 	for k, v := range b.Bad {
 		o.Bad[k] = v
 	}
+	for k, v := range a.Ret {
+		o.Ret[k] = v
+	}
+	for k, v := range b.Ret {
+		if w, ok := o.Ret[k]; ok && w != v {
+			o.Ret[k] = "conflict"
+		} else {
+			o.Ret[k] = v
+		}
+	}
 	return o
 }
 
@@ -207,6 +223,14 @@ func oEqual(a, b *OState) bool {
 	}
 	for k, v := range a.Facts {
 		if w, ok := b.Facts[k]; !ok || w != v {
+			return false
+		}
+	}
+	if len(a.Ret) != len(b.Ret) {
+		return false
+	}
+	for k, v := range a.Ret {
+		if b.Ret[k] != v {
 			return false
 		}
 	}
@@ -289,23 +313,150 @@ func (c *ownChecker) isRefExpr(e ast.Expr) bool {
 func (c *ownChecker) analyse(fi *FuncInfo, returnsRef bool) {
 	info := c.info
 	res := c.m.resolver(fi)
+	// Frames of helpers analysed in place: the helper's parameters stand for the caller's keys,
+	// its own locals carry the helper's name.
+	type oframe struct {
+		decl  *ast.FuncDecl
+		subst map[types.Object]string
+		uniq  map[types.Object]string
+	}
+	frames := map[*ast.CallExpr]*oframe{} // keyed by the call that enters the helper (contexts are copied by the engine)
+	var curFC *FlowCtx[*OState]
+	frameOf := func(fc *FlowCtx[*OState]) *oframe {
+		for c := fc; c != nil; c = c.Parent {
+			if c.Inl != nil {
+				return frames[c.Call]
+			}
+		}
+		return nil
+	}
 	name := func(obj types.Object) string {
+		if fr := frameOf(curFC); fr != nil && obj.Pos() >= fr.decl.Pos() && obj.Pos() < fr.decl.End() {
+			if s, ok := fr.subst[obj]; ok {
+				return s
+			}
+			n := obj.Name()
+			if u, ok := fr.uniq[obj]; ok {
+				n = u
+			}
+			return n + "~" + fr.decl.Name.Name
+		}
 		if u, ok := res.uniq[obj]; ok {
 			return u
 		}
 		return obj.Name()
 	}
-	key := func(e ast.Expr) string {
+	var key func(e ast.Expr) string
+	key = func(e ast.Expr) string {
 		e = unparen(e)
 		if id, ok := e.(*ast.Ident); ok {
 			if obj := objOf(info, id); obj != nil {
 				return name(obj)
 			}
 		}
+		if sel, ok := e.(*ast.SelectorExpr); ok && frameOf(curFC) != nil {
+			if fieldOf(info, sel) != nil {
+				return key(sel.X) + "." + sel.Sel.Name
+			}
+		}
 		return c.r.L.str(e)
 	}
 	fn := fi.Key
 	a := &Analysis[*OState]{L: c.r.L, Info: info, Join: oJoin, Equal: oEqual, Copy: oCopy, Wrappers: c.m.DB.Wrappers}
+	// New private helpers (judged in their callers' context, ServerModel.transparent) are
+	// analysed in place: references and Files they hand out through their results are taken
+	// over by the variables the caller assigns them to.
+	pol := inlinePolicy[*OState](c.m.DB, fi)
+	a.Inline = func(call *ast.CallExpr, fc *FlowCtx[*OState]) *ast.FuncDecl {
+		decl := pol(call, fc)
+		if decl == nil {
+			return nil
+		}
+		if hf := c.r.L.FuncOf(info.Defs[decl.Name].(*types.Func)); hf == nil || !c.m.transparent(hf) {
+			return nil
+		}
+		return decl
+	}
+	a.InlEnter = func(s *OState, call *ast.CallExpr, sub, fc *FlowCtx[*OState]) *OState {
+		curFC = fc
+		fr := &oframe{decl: sub.Inl, subst: map[types.Object]string{}, uniq: newResolver(c.r.L, info, sub.Inl).uniq}
+		bind := func(nm *ast.Ident, arg ast.Expr) {
+			obj := info.Defs[nm]
+			if obj == nil {
+				return
+			}
+			if c.isRefExpr(arg) {
+				fr.subst[obj] = key(arg)
+			} else if fo, ok := c.isFileVar(arg); ok {
+				fr.subst[obj] = name(fo)
+			}
+		}
+		if sub.Inl.Recv != nil && len(sub.Inl.Recv.List) == 1 && len(sub.Inl.Recv.List[0].Names) == 1 {
+			if sel, ok := unparen(call.Fun).(*ast.SelectorExpr); ok {
+				bind(sub.Inl.Recv.List[0].Names[0], sel.X)
+			}
+		}
+		idx := 0
+		for _, f := range sub.Inl.Type.Params.List {
+			for _, nm := range f.Names {
+				if idx < len(call.Args) {
+					bind(nm, call.Args[idx])
+				}
+				idx++
+			}
+		}
+		frames[sub.Call] = fr
+		for k := range s.Ret {
+			delete(s.Ret, k)
+		}
+		return s
+	}
+	a.InlExit = func(s *OState, call *ast.CallExpr, sub, fc *FlowCtx[*OState]) *OState {
+		// what stays behind in the helper's own variables must be settled: a reference or a File
+		// that is neither handed out nor released leaks
+		mark := "~" + sub.Inl.Name.Name
+		handed := map[string]bool{}
+		for _, v := range s.Ret {
+			if i := strings.Index(v, ":"); i >= 0 {
+				handed[v[i+1:]] = true
+			}
+		}
+		for k := range s.Bal {
+			if !strings.Contains(k, mark) || handed[k] {
+				continue
+			}
+			if net := s.Bal[k] - s.Def[k]; net > 0 {
+				c.report("r3", fn+": reference "+k, call.Pos(), false, fmt.Sprintf("reference %s is still held (%+d) when the helper %s returns and is not handed to the caller: it is never released", k, net, sub.Inl.Name.Name))
+			}
+			delete(s.Bal, k)
+			delete(s.Def, k)
+		}
+		for k, st := range s.Files {
+			if !strings.Contains(k, mark) || handed[k] {
+				continue
+			}
+			if st == "owned" || st == "owned?" {
+				c.report("r1", fn+": File "+k, call.Pos(), false, fmt.Sprintf("File %s obtained in the helper %s is neither closed, moved into a reference nor handed to the caller: it leaks", k, sub.Inl.Name.Name))
+			}
+			delete(s.Files, k)
+		}
+		for g, l := range s.Link {
+			if strings.Contains(g, mark) || strings.Contains(l.Key, mark) && !handed[l.Key] {
+				delete(s.Link, g)
+			}
+		}
+		for k := range s.Facts {
+			if strings.Contains(k, mark) {
+				delete(s.Facts, k)
+			}
+		}
+		for k := range s.Bad {
+			if strings.Contains(k, mark) && !handed[k] {
+				delete(s.Bad, k)
+			}
+		}
+		return s
+	}
 
 	releaseLinksFor := func(s *OState, obj types.Object) {
 		for g, l := range s.Link {
@@ -351,6 +502,8 @@ func (c *ownChecker) analyse(fi *FuncInfo, returnsRef bool) {
 		}
 	}
 	a.Stmt = func(s *OState, n ast.Node, fc *FlowCtx[*OState]) *OState {
+		curFC = fc
+		inHelper := frameOf(fc) != nil
 		deferred := false
 		if _, ok := n.(*ast.DeferStmt); ok {
 			deferred = true
@@ -364,6 +517,64 @@ func (c *ownChecker) analyse(fi *FuncInfo, returnsRef bool) {
 					// release = append(release, ref): the reference moves into a list that a deferred
 					// function ranges over, calling DecRef on every element.
 					s.Bal[key(call.Args[1])]--
+				} else if call, ok := rhs.(*ast.CallExpr); ok && len(s.Ret) > 0 && a.Inline(call, fc) != nil {
+					// results of a helper analysed in place: the caller's variables take over what
+					// the helper handed out
+					var errObj types.Object
+					if o := objOf(info, v.Lhs[len(v.Lhs)-1]); o != nil && isErrorType(o.Type()) && len(v.Lhs) > 1 {
+						errObj = o
+					}
+					for _, lhs := range v.Lhs {
+						if obj := objOf(info, lhs); obj != nil {
+							releaseLinksFor(s, obj)
+						}
+					}
+					for j, lhs := range v.Lhs {
+						h, has := s.Ret[j]
+						if !has || len(v.Lhs) == 1 && j > 0 {
+							continue
+						}
+						kind, from := h[:strings.Index(h+":", ":")], h[strings.Index(h+":", ":")+1:]
+						switch kind {
+						case "file":
+							if fobj, ok := c.isFileVar(lhs); ok {
+								kk := name(fobj)
+								if st := s.Files[kk]; st == "owned" && kk != from {
+									c.report("r1", fn+": File "+kk, v.Pos(), false, "File "+kk+" still owned when it is overwritten by the result of "+c.r.L.str(call.Fun)+": the previous File is never closed")
+								}
+								c.nFiles++
+								st := s.Files[from]
+								delete(s.Files, from)
+								s.Files[kk] = st
+								if errObj != nil {
+									s.Link[name(errObj)] = olink{Key: kk, Kind: "file", Guard: errObj}
+								}
+							}
+						case "ref":
+							if c.isRefExpr(lhs) {
+								kk := key(lhs)
+								if kk != from {
+									if _, isIdent := unparen(lhs).(*ast.Ident); isIdent && s.Bal[kk]-s.Def[kk] > 0 {
+										c.report("r3", fn+": reference "+kk, v.Pos(), false, "reference "+kk+" is overwritten while still owned")
+									}
+									s.Bal[kk], s.Def[kk] = s.Bal[from], s.Def[from]
+									delete(s.Bal, from)
+									delete(s.Def, from)
+									if msg, bad := s.Bad[from]; bad {
+										s.Bad[kk] = msg
+										delete(s.Bad, from)
+									}
+								}
+								c.nRefs++
+								if errObj != nil {
+									s.Link[name(errObj)] = olink{Key: kk, Kind: "ref", Guard: errObj}
+								}
+							}
+						}
+					}
+					for k := range s.Ret {
+						delete(s.Ret, k)
+					}
 				} else if call, ok := rhs.(*ast.CallExpr); ok {
 					k, isSrc := isSourceCall(info, call)
 					var errObj types.Object
@@ -463,6 +674,31 @@ func (c *ownChecker) analyse(fi *FuncInfo, returnsRef bool) {
 				}
 			}
 		case *ast.ReturnStmt:
+			if inHelper && fc.Inl != nil {
+				// a helper analysed in place hands its results to the caller's variables
+				results := v.Results
+				if len(results) == 0 && fc.Inl.Type.Results != nil {
+					for _, f := range fc.Inl.Type.Results.List {
+						for _, nm := range f.Names {
+							results = append(results, nm)
+						}
+					}
+				}
+				for j, e := range results {
+					e = unparen(e)
+					if isNilIdent(info, e) {
+						continue
+					}
+					if fobj, ok := c.isFileVar(e); ok {
+						if st := s.Files[name(fobj)]; st == "owned" || st == "owned?" {
+							s.Ret[j] = "file:" + name(fobj)
+						}
+					} else if c.isRefExpr(e) {
+						s.Ret[j] = "ref:" + key(e)
+					}
+				}
+				break
+			}
 			for _, e := range v.Results {
 				e = unparen(e)
 				if fobj, ok := c.isFileVar(e); ok {
@@ -487,6 +723,7 @@ func (c *ownChecker) analyse(fi *FuncInfo, returnsRef bool) {
 		return s
 	}
 	a.Cond = func(s *OState, cond ast.Expr, branch bool, fc *FlowCtx[*OState]) *OState {
+		curFC = fc
 		// conjunctive literals
 		var lits []struct {
 			e ast.Expr
@@ -556,6 +793,7 @@ func (c *ownChecker) analyse(fi *FuncInfo, returnsRef bool) {
 		return s
 	}
 	a.Exit = func(s *OState, ret *ast.ReturnStmt, fc *FlowCtx[*OState]) {
+		curFC = fc
 		if fc.Parent != nil {
 			return // exits of inlined literals flow into their caller
 		}
@@ -927,28 +1165,19 @@ func c05Teardown(r *Run, m *ServerModel) {
 		if fi == nil {
 			continue
 		}
-		ast.Inspect(fi.Decl.Body, func(nd ast.Node) bool {
-			g, ok := nd.(*ast.GoStmt)
+		// (go statements written in a helper that is judged in this function's context count)
+		gos := m.blockingIn(fi, "go")
+		addedAt := unconsumedAdd(m, fi)
+		sort.Slice(gos, func(i, j int) bool { return gos[i].Node.Pos() < gos[j].Node.Pos() })
+		for _, b := range gos {
+			g, ok := b.Node.(*ast.GoStmt)
 			if !ok {
-				return true
+				continue
 			}
 			ngo++
 			lit, _ := unparen(g.Call.Fun).(*ast.FuncLit)
-			// Add(1) must have happened before.
-			added := false
-			for _, s := range m.DB.ByFunc[fi] {
-				if s.Node == ast.Node(g) || containsNode(s.Node, g) {
-					added = s.St.Must["sync.WaitGroup.Add"]
-				}
-			}
-			// Find state at the go statement through any site whose Node is the GoStmt.
-			if !added {
-				for _, s := range m.DB.Calls["sync.WaitGroup.Add"] {
-					if s.Root == fi && s.Call.Pos() < g.Pos() && sameBlockBefore(r.L, s.Call, g) {
-						added = true
-					}
-				}
-			}
+			// An Add that no earlier Done or go statement has used up must precede on every path.
+			added := addedAt[g]
 			done := false
 			if lit != nil {
 				ast.Inspect(lit.Body, func(n2 ast.Node) bool {
@@ -961,8 +1190,7 @@ func c05Teardown(r *Run, m *ServerModel) {
 			skey := fmt.Sprintf("p9.%s: goroutine #%d is counted", key, ngo)
 			// The context-watcher goroutine of ServeContext is counted by the same WaitGroup.
 			r.check(added && done, "r5", skey, g.Pos(), "WaitGroup.Add before go, Done in the body", "a goroutine is started without WaitGroup.Add before it / Done inside it: Handle/Serve can return while it still runs")
-			return true
-		})
+		}
 	}
 	r.floor("r5", "go statements on the serving path", ngo, 3)
 	if fi := r.L.Func("p9", "connState.handleRequest"); fi != nil {
@@ -1167,4 +1395,51 @@ func (c *ownChecker) consultedGuard(s *OState, key string, st ast.Node) bool {
 		}
 	}
 	return false
+}
+
+// unconsumedAdd computes, for every go statement on the paths of fi (private helpers analysed
+// in place), whether on every path to it a WaitGroup.Add has run that no later deferred or
+// direct Done and no other go statement has accounted for: the Add that counts this goroutine.
+func unconsumedAdd(m *ServerModel, fi *FuncInfo) map[*ast.GoStmt]bool {
+	info := m.Info
+	at := map[*ast.GoStmt]bool{}
+	seen := map[*ast.GoStmt]bool{}
+	a := &Analysis[bool]{L: m.L, Info: info, Wrappers: m.DB.Wrappers, Inline: inlinePolicy[bool](m.DB, fi),
+		Join:  func(x, y bool) bool { return x && y },
+		Equal: func(x, y bool) bool { return x == y },
+		Copy:  func(x bool) bool { return x },
+	}
+	a.Stmt = func(s bool, n ast.Node, fc *FlowCtx[bool]) bool {
+		switch v := n.(type) {
+		case *ast.GoStmt:
+			return false
+		case *ast.DeferStmt:
+			if calleeKey(info, v.Call) == "sync.WaitGroup.Done" {
+				return false
+			}
+			return s
+		}
+		inspectNoLit(n, func(x ast.Node) {
+			if c, ok := x.(*ast.CallExpr); ok {
+				switch calleeKey(info, c) {
+				case "sync.WaitGroup.Add":
+					s = true
+				case "sync.WaitGroup.Done":
+					s = false
+				}
+			}
+		})
+		return s
+	}
+	a.Visit = func(s bool, n ast.Node, fc *FlowCtx[bool]) {
+		if g, ok := n.(*ast.GoStmt); ok {
+			if seen[g] {
+				at[g] = at[g] && s
+			} else {
+				at[g], seen[g] = s, true
+			}
+		}
+	}
+	a.Run(fi.Decl, false)
+	return at
 }
